@@ -35,8 +35,8 @@ fn amt_lattice(n: usize, w: usize, ty: NatTy) -> Vec<u128> {
     let n = n as u128;
     let w = w as u128;
     let mut v: Vec<u128> = vec![0, 1, w.saturating_sub(1), w, w + 1, n.saturating_sub(1), n, n + 1, 2 * n, 255, 256, 1 << 16, 1 << 32, (1 << 32) + 1, u64::MAX as u128 - 1, u64::MAX as u128, 1u128 << 64, (1u128 << 64) + 1, (1u128 << 64) + n.max(1) - 1, 1u128 << 100, u128::MAX - 1, u128::MAX];
-    v.retain(|&x| x <= ty.max());
-    v.push(ty.max());
+    v.retain(|&x| x <= ty.maxv());
+    v.push(ty.maxv());
     v.sort();
     v.dedup();
     v
@@ -44,7 +44,7 @@ fn amt_lattice(n: usize, w: usize, ty: NatTy) -> Vec<u128> {
 
 fn realize_amt(sel: &AmtSel, n: usize, w: usize, ty: NatTy) -> Nat {
     match sel {
-        AmtSel::Rel(f) => Nat::new(ty, (frac(*f, 2 * n + 2) as u128).min(ty.max())),
+        AmtSel::Rel(f) => Nat::new(ty, (frac(*f, 2 * n + 2) as u128).min(ty.maxv())),
         AmtSel::Lattice(i) => {
             let l = amt_lattice(n, w, ty);
             Nat::new(ty, l[((*i as usize) * l.len()) >> 8])
@@ -62,7 +62,7 @@ impl Property for C05 {
         "Cases: (operand of any zoo type/length/provenance, shift amount of one of six native types, direction, one of six operator forms) and (operand, shl_in|shr_in, supplied bit). Amounts: relative to the length (0..2n+1), a lattice {0,1,w-1,w,w+1,n-1,n,n+1,2n,2^8-1,2^16,2^32,2^64-1,2^64,2^64+1,2^64+n-1,2^100,type max}, and uniform over the whole type. Enumerated: every (n,k), n<=min(C,72) quick / 200 thorough, k in 0..n+2, three value classes, 18 types, both directions, amount type and form rotating over all 36 combinations (all 36 for n<=20); all values for n<=8; shl_in/shr_in on all values n<=10 and every length with three value classes. Oracle: index arithmetic on the bit list + observer battery; returned bit of shl_in/shr_in. Non-trivial: 0<k<n with some set bit surviving and some set bit falling off; for shl_in/shr_in: n>=2. Distinct by hash of the case.".into()
     }
     fn random_cases(&self, tier: Tier) -> u64 {
-        tier.pick(40_000, 500_000)
+        tier.pick(200000, 1000000)
     }
     fn strategy(&self, tier: Tier) -> BoxedStrategy<C05Case> {
         let sel = prop_oneof![
@@ -100,7 +100,7 @@ impl Property for C05 {
                             let combos: Vec<usize> = if n <= 20 && a == &vals[vals.len() - 1] { (0..36).collect() } else { rot += 1; vec![rot % 36] };
                             for cb in combos {
                                 let ty = NAT_TYS[cb / 6];
-                                if k as u128 > ty.max() {
+                                if k as u128 > ty.maxv() {
                                     continue;
                                 }
                                 let c = C05Case::Shift { a: Operand::canon(t, a.clone()), amt: Nat::new(ty, k as u128), left, form: SH_FORMS[cb % 6] };
